@@ -22,6 +22,7 @@ def errName : Err → String
   | .concurrentTransaction => "ConcurrentTransaction"
   | .noSuchStorage => "Storage:NoSuchStorage"
   | .emptyPerspective => "Storage:EmptyPerspective"
+  | .storageExists => "Storage:StorageExists"
   | .bug => "Bug"
   | .malformed => "Malformed"
 
@@ -123,6 +124,17 @@ def step (s : St) (toks : List String) : St × String :=
         | .err e => s!"err {errName e} sink={sk}"
         | _ => "bad-op")
     | _, _, _ => (s, "bad-op")
+  | ["newgraph", nonce, ps] =>
+    match nonce.toNat?, lookupTags s ps with
+    | some _, some ps =>
+      let r := AranyaV.Trx.step s.cl (.newGraph (ps.map (·.cmd)))
+      let sk := showWindows s (sinkDelta s.cl.sink r.1.sink)
+      ({ s with cl := r.1 },
+        match r.2 with
+        | .done => s!"ok {tagOf s s.cl.gid} sink={sk}"
+        | .err e => s!"err {errName e} sink={sk}"
+        | _ => "bad-op")
+    | _, _ => (s, "bad-op")
   | ["heads"] =>
     (s, match s.cl.store with
       | some st => showIds s st.heads
